@@ -62,7 +62,7 @@ Definition top_tokens (l : list cmd) : list tok := TLineNo 0 :: tokens_of l.
 
 (* the model lexer on the printed program (initial lexer state of Compile.run_source) *)
 Definition lex_of_prog (p : list cmd) : res (list tok) :=
-  do lx <- lex (mkLex 96 [] init_vars rhythm_rows) (pprog p) 0; Ok (fst lx).
+  do lx <- lex (mkLex 96 [] init_vars rhythm_rows false) (pprog p) 0; Ok (fst lx).
 
 (* ---- well-formedness: the hypotheses of C03 ---- *)
 Definition is_base (b : Z) : bool := existsb (Z.eqb b) [0; 2; 4; 5; 7; 9; 11].
